@@ -2,6 +2,7 @@
 
 from hypothesis import strategies as st
 
+import re
 import cssutils
 import cssutils.profiles as PR
 from cssutils.css import CSSStyleDeclaration, Property
@@ -317,6 +318,14 @@ def check_verdict(case, ctx):
                 # the registered CSS3 Color profile redefines the <color> macro for every profile: not judged by the 2.1 grammar
                 ctx.event('reference:css3-colour-keyword-not-judged')
             elif not exp and verdict and len(profiles_defining(name)) == 1:
+                with lib('serialise'):
+                    written = cssutils.css.PropertyValue(value).cssText
+                wclasses = set(classes or ())
+                if re.fullmatch(r'[-+]?\d+', written):
+                    wclasses |= {'integer', 'number'} | ({'length'} if written.strip('+-0') == '' else set())
+                if written != value and classes is not None and ref_valid(name, written, wclasses):
+                    # the listed finding F13-8: the value is judged as it is WRITTEN (2.9999999 is written 3, 0px is written 0)
+                    raise Violation('expect:serialised-value-judged', f'{name}: {value} is reported valid because it is written {written!r}')
                 raise Violation('reference:css21-invalid-reported-valid', f'{name}: {value}')
             ctx.event('reference:' + ('valid' if exp else 'invalid'))
         ctx.event('verdict:' + str(verdict))
